@@ -122,6 +122,8 @@ theorem cast_int_exact (d : DType) (hd : d = .u8 ∨ d = .u16) (n : Int) (hn : I
 example : castImage .u8 false [1, 300, 5 / 2] = .error .runtime := by decide +kernel
 example : castImage .u8 true [1, 300, 5 / 2, -3] = .ok [1, 255, 2, 0] := by decide +kernel
 example : castImage .u16 false [1, 300, 5 / 2] = .ok [1, 300, 2] := by decide +kernel
+/-- Non-vacuity of `cast_fits` / `cast_f32_close` / `cast_f32_in_range`: a float32 cast that succeeds and rounds. -/
+example : castImage .f32 false [1 / 3, 16777217, -7] = .ok [11184811 / 33554432, 16777216, -7] := by decide +kernel
 example : InRange .u8 255 ∧ ¬ InRange .u8 300 := by
   unfold InRange DType.lo DType.hi; norm_num
 
@@ -527,6 +529,11 @@ theorem export_uniform {α} (s : Stack) (f : File α) (H W : Nat) (hf : f.Shaped
   · intro h0
     subst h0
     exact export_nonempty s f h
+
+/-- Non-vacuity of the hypotheses of `export_uniform` / `reexport_after_export`. -/
+example : Roi.Within ⟨1, 3, 0, 2⟩ 2 3 := by unfold Roi.Within; decide
+example : exportPages ⟨0, 1, 1, ⟨1, 3, 0, 2⟩⟩ (⟨[⟨10, 18, 15, [[0, 1, 2], [3, 4, 5]]⟩], false⟩ : File Int)
+    = .ok [⟨10, 18, 5, [[1, 2], [4, 5]]⟩] := by decide
 
 /-- Fixed point.  Take any list of pages an export wrote (uniform shape): open it as a fresh `ImageStack`
     (all pages, step 1, ROI = the page size, exposure key present so never `legacy`) and export again — the same
